@@ -14,23 +14,43 @@ for f in sorted(glob.glob(os.path.join(V, "evidence", "C*.json"))):
           f"{c['bounded_stand_ins']['discharged']}/{c['bounded_stand_ins']['obligations']} | {len(c['known_findings_hit'])} | {c['solver_seconds']} | "
           f"{c['interpreter_conformance']['obligation_values_compared_cpython_vs_pyvc']} |")
 print()
-print("| seeded change | breaks | what was changed | needs | caught by (exit 1) | obligation that fails (first) | natively replayed |")
-print("|---|---|---|---|---|---|---|")
+print("| seeded change | breaks | what was changed | needs | own check (exit) | obligation that fails (first) | natively replayed | other checks that also fail (full matrix, where run) |")
+print("|---|---|---|---|---|---|---|---|")
 for d in sorted(glob.glob(os.path.join(V, "seeded", "*"))):
     sid = os.path.basename(d)
+    try:
+        m = json.load(open(os.path.join(d, "meta.json")))
+    except Exception:
+        continue
+    own = m["property"]
+    ro = rf = None
+    try:
+        ro = json.load(open(os.path.join(d, "result_own.json")))
+    except Exception:
+        pass
+    try:
+        rf = json.load(open(os.path.join(d, "result.json")))
+    except Exception:
+        pass
+    src = ro if ro and own in (ro.get("checks") or {}) else rf
+    first = rep = ""
+    ex = "not run"
+    if src and own in (src.get("checks") or {}):
+        c = src["checks"][own]
+        ex = {0: "0 **missed**", 1: "1 VIOLATION", 2: "2 undecided", 3: "3 checker error"}.get(c["exit"], str(c["exit"]))
+        if c.get("obligations"):
+            o = c["obligations"][0]
+            first = f"{o['oset']} :: {o['obligation'][:80]}"
+            rep = "yes" if any(x.get("reproduced") for x in c["obligations"]) else "no-failing-input-found"
+    others = ", ".join(p for p in (rf.get("detected_by") or []) if p != own) if rf else ""
+    print(f"| {sid} | {own} | {m['summary'][:120].replace('|','/')} | {m['needs'][:100].replace('|','/')} | {ex} | {first.replace('|','/')} | {rep} | {others} |")
+print()
+print("| harmless change | files | kind | every check exit 0 | alarms (exit 1) | undecided / checker error |")
+print("|---|---|---|---|---|---|")
+for d in sorted(glob.glob(os.path.join(V, "harmless", "*"))):
     try:
         m = json.load(open(os.path.join(d, "meta.json")))
         r = json.load(open(os.path.join(d, "result.json")))
     except Exception:
         continue
-    own = m["property"]
-    det = r.get("detected_by") or []
-    first = ""
-    rep = ""
-    ch = r.get("checks", {})
-    pick = own if own in det else (det[0] if det else None)
-    if pick and ch.get(pick, {}).get("obligations"):
-        o = ch[pick]["obligations"][0]
-        first = f"{o['oset']} :: {o['obligation'][:70]}"
-        rep = "yes" if any(x.get("reproduced") for p in det for x in ch[p].get("obligations", [])) else "no-failing-input-found"
-    print(f"| {sid} | {own} | {m['summary'][:110].replace('|','/')} | {m['needs'][:90].replace('|','/')} | {', '.join(det) or '**missed**'} | {first.replace('|','/')} | {rep} |")
+    print(f"| {os.path.basename(d)} | {', '.join(m.get('files', []))[:70]} | {m.get('kind','')[:60]} | {r.get('all_green')} | {', '.join(r.get('alarms') or [])} | {', '.join(r.get('undecided_or_error') or [])} |")
